@@ -724,7 +724,7 @@ func (ex *Exec) modifiesByType(ct *Contract, item string, heaps map[string]strin
 type dummyView struct{ c *Ctx }
 
 func (d dummyView) Heap(name, sort string) T { return T{"dummyheap", sort} }
-func (d dummyView) AllocTerm() T              { return T{"dummyalloc", SInt} }
+func (d dummyView) AllocTerm() T             { return T{"dummyalloc", SInt} }
 
 func (ex *Exec) ifaceSig(ct *Contract) *types.Signature {
 	p := ex.c.TPkgs[ct.PkgPath]
